@@ -84,6 +84,9 @@ DeleteVertsViolWith(s, I, t, m) ==
     \cup V(\A f \in AttrNames : (s.lens[f] = 0) = (t.lens[f] = 0) \/ t.nv = 0, "NoAttributeArrayLostOrGained")
     \cup V(s.isStrips \/ t.nv = 0 \/ t.tris = MapTris(s.tris, m), "TrianglesWithoutDeletedVerticesInOrder")
     \cup V(t.nv = 0 \/ Len(t.weights) # Len(s.weights) \/ t.weights = WeightsAfter(s.weights, m), "SkinWeightsFollowTheirVertices")
+    \* the locked-normal list (ascending) names the same vertices as before, minus the deleted ones
+    \cup V((t.nv = 0 \/ Len(s.locked) = 0 \/ ~(\A k \in 1..(Len(s.locked) - 1) : s.locked[k] < s.locked[k + 1]) \/ ~IdxOK(s.locked, s.nv)) \/
+           LET K == SelectSeq(s.locked, LAMBDA x : m[x + 1] >= 0) IN t.locked = [j \in 1..Len(K) |-> m[K[j] + 1]], "LockedNormalsFollowTheirVertices")
     \* every surviving triangle stays in the segment / sub-segment it was in
     \cup V((t.nv = 0 \/ s.isStrips \/ Len(s.segs) = 0 \/ Len(s.segTriParts) # Len(s.tris) \/ Len(t.segTriParts) # Len(t.tris)) \/
            LET K == SelectSeq([k \in 1..Len(s.tris) |-> k], LAMBDA k : \A c \in 1..3 : m[s.tris[k][c] + 1] >= 0)
